@@ -107,7 +107,11 @@ func c10Do(vm *runtime.VM, o c10Op, idents *sync.Map) string {
 		}
 		return "ok"
 	case "getFunc":
-		if _, ok := vm.GetFunc(o.name); ok {
+		name := o.name
+		if o.arg == "fq" { // fully qualified spelling \name: GetFunc strips the backslash and looks again
+			name = "\\" + name
+		}
+		if _, ok := vm.GetFunc(name); ok {
 			return "found"
 		}
 		return "none"
@@ -179,6 +183,10 @@ func c10RandOp(rng *rand.Rand, mix []string, names int, fresh *int) c10Op {
 		if rng.Intn(3) == 0 {
 			arg = "ci"
 		}
+	case "getFunc":
+		if rng.Intn(3) == 0 {
+			arg = "fq"
+		}
 	}
 	return c10Op{op, name, arg}
 }
@@ -210,6 +218,14 @@ func c10RaceWorker() {
 					o.name = fmt.Sprintf("T%d", k/4)
 				}
 				c10Do(vm, o, nil)
+				if k%16 == 15 { // enumerations of a table overlap registrations into it
+					switch c10Group(o.op) {
+					case "ci":
+						_ = len(vm.AllClasses()) + len(vm.AllInterfaces())
+					case "fn":
+						_ = len(vm.AllFuncs())
+					}
+				}
 			}
 		}(i)
 	}
@@ -251,8 +267,8 @@ func (r *c10Rec) split() map[string]*history {
 			out[k] = h
 		}
 		arg := o.arg
-		if o.op == "getClass" {
-			arg = "" // exact and case-folded lookups are the same reference operation
+		if o.op == "getClass" || o.op == "getFunc" {
+			arg = "" // exact, case-folded and fully qualified lookups are the same reference operation
 		}
 		h.Ops = append(h.Ops, histOp{o.op, arg, r.res[i]})
 		idmap[i+1] = len(h.Ops)
